@@ -11,9 +11,9 @@ where=$(PYTHONPATH=$d /venv/bin/python -c "import parso; print(parso.__file__)")
 case "$where" in "$d"/*) ;; *) echo "wrong parso: $where"; exit 2;; esac
 suite=$(PYTHONPATH=$d timeout 900 /venv/bin/python -m pytest -q -p no:cacheprovider 2>&1 | tail -1)
 PYTHONPATH=$d timeout 300 /venv/bin/python demo.py > /tmp/demo_with.txt 2>&1; with=$?
-git stash -q -- parso
+git apply -R patch.diff
 PYTHONPATH=$d timeout 300 /venv/bin/python demo.py > /tmp/demo_without.txt 2>&1; without=$?
-git stash pop -q
+git apply patch.diff
 echo "suite: $suite | demo with change: exit $with | without: exit $without"
 if echo "$suite" | grep -q "1987 passed" && [ "$with" -ne 0 ] && [ "$without" -eq 0 ]; then
   mkdir -p /verif/seeded/$id && cp patch.diff demo.py /verif/seeded/$id/ && echo "CONFIRMED -> /verif/seeded/$id"
